@@ -16,11 +16,12 @@ func init() {
 		Title:       "Responses are well-formed MS-TSGU packets reporting true outcome and policy",
 		DesignRef:   "DESIGN.md §3 C16",
 		Technique:   "byte-layout abstraction of the straight-line response builders (static widths of binary.Write operands vs. an MS-TSGU layout table) + typestate model (type/status per path) + conditional constant propagation of makeRedirectFlags over all 2^7 switch settings + SSA value origin for idle timeout and policy wiring",
-		LevelText:   "Static: each response builder writes exactly the fixed fields of its MS-TSGU structure (widths in order), the status parameter at the status offset, a constant fields-present mask, and exactly the optional fields that mask announces; it wraps them with createPacket of the builder's response type, whose header writes type, reserved and len(data)+8 with a header of static width 8. On every path of the packet loop the response's type answers the request and status is 0 exactly on the accepting path, with the three MS-TSGU refusal codes at their refusals. makeRedirectFlags is evaluated by constant propagation for all 128 settings against the specification function (disable-all precedence, per-device negation, bit values). Idle timeout is Gateway.IdleTimeout clamped at 0; main initialises each policy field from the configuration field of the same meaning.",
+		LevelText:   "Static: each response builder writes exactly the fixed fields of its MS-TSGU structure (widths in order), the status parameter at the status offset, a constant fields-present mask, and exactly the optional fields that mask announces; it wraps them with createPacket of the builder's response type, whose header writes type, reserved and len(data)+8 with a header of static width 8. On every path of the packet loop the response's type answers the request and status is 0 exactly on the accepting path, with the three MS-TSGU refusal codes at their refusals. makeRedirectFlags is evaluated by constant propagation for all 128 settings against the specification function (disable-all precedence, per-device negation, bit values). Idle timeout is Gateway.IdleTimeout clamped at 0; main initialises each policy field from the configuration field of the same meaning. A policy callback that did not pass on a path (by its boolean or, since the installed policy functions return an error together with a denial, by its error) is answered with the denial code of that policy.",
 		LevelNote:   "Trusted: encoding/binary writes the static width of its operand in call order; bytes.Buffer; MS-TSGU field tables transcribed into the checker (independent of the repository's own client decoder). The close-channel response layout is the gateway's own (status + mask + reserved + channel id).",
 		Explanation: "C16/layout abstracts every builder to its sequence of (width, value-kind) writes and compares it with the table; C16/header does the same for createPacket. C16/type-and-status reads each path of the typestate model. C16/constants compares status codes, packet types, mask bits and redirect bits with MS-TSGU values. C16/redirect runs conditional constant propagation over makeRedirectFlags for every assignment of the seven switches. C16/idle and C16/policy-wiring follow values.",
 		Assumptions: []string{"MS-TSGU §2.2.5/2.2.10 values as transcribed in rules_c16.go"},
 		Rules: []RuleDef{
+			{"C16/buffer-ownership", "the bytes a client receives are the bytes built for it: a packet is assembled and handed on in storage of the call, no package-level buffer or free list that the returned packet still aliases", func(c *Ctx) { packetBuffersPrivate(c, "C16/buffer-ownership") }},
 			{"C16/layout", "each response builder: fixed layout, status at its offset, mask constant, optional fields exactly as the mask announces, right packet type", c16Layout},
 			{"C16/header", "createPacket: type(2) reserved(2) length(4)=len(data)+8 then data", c16Header},
 			{"C16/type-and-status", "per path: response type answers the request; status 0 iff accepted; MS-TSGU codes at the three refusals", c16TypeStatus},
@@ -29,7 +30,9 @@ func init() {
 			{"C16/idle", "idle timeout written = Gateway.IdleTimeout, 0 when negative", c16Idle},
 			{"C16/config-timeout", "Caps.IdleTimeout is the int the configuration library reads from `idletimeout`; Load does not compute it", c16ConfigTimeout},
 			{"C16/policy-wiring", "main: redirect switches, idle timeout and auth switches initialised from the configuration fields of the same meaning", c16PolicyWiring},
-			{"C16/config-tags", "the configuration fields this property depends on are read from the documented keys: koanf tag = lower-cased field name", func(c *Ctx) { configTags(c, "C16/config-tags", map[string][]string{"Configuration": {"Caps"}, "RDGCapsConfig": {"*"}}) }},
+			{"C16/config-tags", "the configuration fields this property depends on are read from the documented keys: koanf tag = lower-cased field name", func(c *Ctx) {
+				configTags(c, "C16/config-tags", map[string][]string{"Configuration": {"Caps"}, "RDGCapsConfig": {"*"}})
+			}},
 		},
 	})
 }
@@ -447,6 +450,7 @@ func c16TypeStatus(c *Ctx) {
 	}
 	rows, _, _, _, _, _ := c.phases()
 	k := func(n string) int64 { return c.ConstInt("cmd/rdpgw/protocol", n) }
+	denyErr := policyDenialCarriesError(c)
 	for _, p := range m.Paths {
 		resps := p.Responses()
 		if len(resps) == 0 {
@@ -466,6 +470,22 @@ func c16TypeStatus(c *Ctx) {
 			if (r.Status == 0) != accepted {
 				bad = append(bad, fmt.Sprintf("status %#x but the step was accepted=%v", uint32(r.Status), accepted))
 			}
+			// a policy callback that did not pass on this path (whichever of its results the
+			// loop looked at): the installed policy functions return an error together with
+			// an ordinary denial, so an error branch is a denial and carries the denial's code
+			if denyErr {
+				for _, e := range p.All("CHECK") {
+					if e.Decided && e.Passed {
+						continue
+					}
+					switch {
+					case e.Name == "CheckHost" && r.Status != k("E_PROXY_RAP_ACCESSDENIED"):
+						bad = append(bad, fmt.Sprintf("the host policy did not allow the host (the policy functions return an error with a denial) but the status is %#x, not E_PROXY_RAP_ACCESSDENIED", uint32(r.Status)))
+					case e.Name == "CheckPAACookie" && r.Status != k("E_PROXY_COOKIE_AUTHENTICATION_ACCESS_DENIED"):
+						bad = append(bad, fmt.Sprintf("the cookie was not accepted but the status is %#x, not E_PROXY_COOKIE_AUTHENTICATION_ACCESS_DENIED", uint32(r.Status)))
+					}
+				}
+			}
 			// specific refusal codes
 			for _, cd := range p.Conds {
 				switch {
@@ -480,6 +500,18 @@ func c16TypeStatus(c *Ctx) {
 		}
 		if len(resps) > 1 {
 			bad = append(bad, "more than one response to one packet")
+		}
+		// the relay goroutine writes DATA packets to the client: it is started only after the
+		// response to the request that opens the channel is on the wire, or a host that speaks
+		// first gets its DATA packet in front of the CHANNEL_RESPONSE
+		seenResp := false
+		for _, e := range p.Effects {
+			if e.Kind == "RESP" {
+				seenResp = true
+			}
+			if e.Kind == "SPAWN" && !seenResp {
+				bad = append(bad, "the relay ("+e.Name+") is started before the response is written: the packet that answers the request can be a DATA packet")
+			}
 		}
 		if len(bad) == 0 {
 			c.OK(rule, p.Key(), resps[0].Instr.Pos(), "%s", p.Describe())
@@ -1006,4 +1038,32 @@ func headerFirstBuilder(fn *ssa.Function) (writes []bufWrite, root *ssa.Call, en
 func isSameInstrValue(v ssa.Value, in ssa.Instruction) bool {
 	iv, ok := in.(ssa.Value)
 	return ok && iv == v
+}
+
+// policyDenialCarriesError reports whether an installed policy function (security.CheckHost,
+// the closure CheckSession returns, CheckPAACookie) has a return of (false, non-nil error):
+// then a non-nil error of the callback accompanies an ordinary denial and is not a separate
+// "internal fault" outcome.
+func policyDenialCarriesError(c *Ctx) bool {
+	var fns []*ssa.Function
+	for _, n := range []string{"CheckHost", "CheckSession", "CheckPAACookie"} {
+		if f := c.FnOpt("cmd/rdpgw/security", n); f != nil {
+			fns = append(fns, f)
+			fns = append(fns, f.AnonFuncs...)
+		}
+	}
+	for _, f := range fns {
+		for _, b := range f.Blocks {
+			for _, in := range b.Instrs {
+				r, ok := in.(*ssa.Return)
+				if !ok || len(r.Results) != 2 {
+					continue
+				}
+				if cst, ok := r.Results[0].(*ssa.Const); ok && cst.Value != nil && cst.Value.Kind() == constant.Bool && !constant.BoolVal(cst.Value) && !isNil(r.Results[1]) {
+					return true
+				}
+			}
+		}
+	}
+	return false
 }
